@@ -301,6 +301,12 @@ def r7_guards_and_list_columns(ctx):
 from ..through_time import make_rule as _mk_tt
 _through_time = _mk_tt("C19")
 
+def _lazy_tables(ctx):
+    from .c05 import r1_aligned_views
+    from .c04 import r6_lazy_derivations
+    r1_aligned_views(ctx)
+    r6_lazy_derivations(ctx)   # tables read from files are lazy: concatenation and replacement act on all columns / leave the operand unchanged
+
 RULES = [
     ("C19-R6", r6_retarget_guard),
     ("C19-R1", r1_constructor_exhaustive),
@@ -310,4 +316,5 @@ RULES = [
     ("C19-R5", r5_string_array),
     ("C19-R7", r7_guards_and_list_columns),
     ("C19-T1", _through_time),
+    ("C19-R8", _lazy_tables),
 ]
